@@ -15,7 +15,9 @@ import (
 	"strings"
 
 	"github.com/paulsonkoly/chess-3/board"
+	"github.com/paulsonkoly/chess-3/debug"
 	"github.com/paulsonkoly/chess-3/move"
+	"github.com/paulsonkoly/chess-3/search"
 	"github.com/paulsonkoly/chess-3/uci"
 
 	. "github.com/paulsonkoly/chess-3/chess"
@@ -35,6 +37,8 @@ type env struct {
 	// epSound of the position loaded last: the recorded en-passant target belongs to a pawn that
 	// could really just have double-pushed (the side to move was not in check before the push)
 	epSound bool
+	// nx counts the calls of next (position stream with the castling-path class interleaved)
+	nx int
 }
 
 func main() {
@@ -103,6 +107,49 @@ func (e *env) load(prop, fen string) (b *board.Board, valid, epNormal bool) {
 	return b, ans[1][0] == '1', ans[1][1] == '1'
 }
 
+// next is the position stream of c01/c02/c05: the shared stream with the castling-path class
+// (posgen.CastlePathSweep / posgen.CastlePath) interleaved.  After the roots come the systematic
+// single-occupant patterns (every path square x every occupant kind, bare and with filler material),
+// from then on every sixth position is a random castling-path position.  The histogram counts the
+// positions per (right, occupancy pattern) and the attack-from-afar / side-to-move splits.
+func (e *env) next() (fen, src string) {
+	e.nx++
+	k := e.nx - len(e.s.Roots) - 1
+	var cc posgen.CastleCase
+	ok := false
+	switch {
+	case k < 0:
+	case k < 2*posgen.CastleSweepSize:
+		src = "castlepath-sweep"
+		for try := 0; try < 20 && !ok; try++ {
+			cc, ok = posgen.CastlePathSweep(e.c.Rng, k/2, k%2 == 1)
+		}
+	case e.c.Rng.IntN(6) == 0:
+		src = "castlepath"
+		for try := 0; try < 20 && !ok; try++ {
+			cc, ok = posgen.CastlePath(e.c.Rng)
+		}
+	}
+	if !ok {
+		return e.s.Next()
+	}
+	e.r.Count("castlepath-generated", 1)
+	e.r.Count("castlepath-pattern "+cc.Key(), 1)
+	if cc.AfarKing {
+		e.r.Count("castlepath-kingpath-attacked-from-afar", 1)
+	}
+	if cc.AfarB {
+		e.r.Count("castlepath-only-b-square-attacked", 1)
+	}
+	if cc.OwnerToMove {
+		e.r.Count("castlepath-owner-to-move", 1)
+	}
+	if cc.Pos.Castles == 15 {
+		e.r.Count("castlepath-all-four-rights", 1)
+	}
+	return cc.Pos.FEN(), src
+}
+
 func (e *env) feature(fen string) posgen.Stats {
 	p, _ := posgen.Parse(fen)
 	return p.Features()
@@ -113,13 +160,13 @@ func (e *env) feature(fen string) posgen.Stats {
 
 func (e *env) c01() {
 	n := e.c.Pick(6000, 150000)
-	e.r.Rule = "positions from roots/play-outs/constructive sampler accepted by the Lean `valid`; for each: implementation's playable set (GenNoisy+GenNotNoisy filtered by MakeMove/InCheck) vs model vs Rules.legalMoves of the abstraction, duplicates in the generated list; non-trivial = valid position with >=1 of: in check, pin candidate, en-passant target, castling right, pawn on 7th, promoted material; distinct by FEN"
-	for i := 0; i < n; i++ {
-		fen, src := e.s.Next()
+	e.r.Rule = "positions from roots/play-outs/constructive sampler accepted by the Lean `valid`; for each: implementation's playable set (GenNoisy+GenNotNoisy filtered by MakeMove/InCheck) vs model vs Rules.legalMoves of the abstraction, duplicates in the generated list; non-trivial = valid position with >=1 of: in check, pin candidate, en-passant target, castling right, pawn on 7th, promoted material; distinct by FEN. Added classes: castling-path positions (every path square vacant / own / enemy man, histogram castlepath-*), king nets; on every position debug.Perft(1) (sampled: Perft(2)) vs the rule-book counts and the move returned by an aborted search (go nodes 0 / tiny node limit / pending stop) vs the rule-book legal set (filter-*, perft*, abort-fallback*); positions reached by 130-260 plies of mostly reversible play from roots with castling rights, compared at checkpoints incl. a second generation after make/undo of every generated move (longplay-*; non-trivial = checkpoint with castling rights and clock > 100 or wrapped)"
+	probe := search.New(32000)
+	process := func(i int, fen, src string) {
 		b, valid, _ := e.load("C01", fen)
 		if b == nil || !valid {
 			e.r.Count("skipped-invalid:"+src, 1)
-			continue
+			return
 		}
 		e.r.Evaluations++
 		st := e.feature(fen)
@@ -183,6 +230,362 @@ func (e *env) c01() {
 					Impl: got, Spec: after[k], Note: "playable set of the position reached by MakeMove differs from the FIDE-legal moves of the rule-book successor"})
 			}
 		}
+		// every other copy of the legality filter "make the move, reject it if the own king is attacked"
+		// must agree with the rule book as well: debug.Perft and the search's abort fallback
+		e.c01Filters(fen, src, b, st, all, ans[2], probe)
+	}
+	for i := 0; i < n; i++ {
+		fen, src := e.next()
+		process(i, fen, src)
+		if i%8 == 7 {
+			// king nets: dense around the king of the side to move - in check by guarded adjacent men,
+			// pinned capturers, few legal moves among many pseudo-legal ones
+			for try := 0; try < 50; try++ {
+				if p, ok := posgen.KingNet(e.c.Rng); ok && (p.EP == 0 || p.EPSound()) {
+					process(i, p.FEN(), "kingnet")
+					break
+				}
+			}
+		}
+	}
+	e.c01LongPlay(e.c.Pick(36, 1500))
+}
+
+// c01LongPlay: positions REACHED BY LONG PLAY.  From valid roots with castling rights (stream roots,
+// constructive samples, castling-path positions; pawns give en-passant / promotion potential) a game
+// of 130-260 plies is played with MakeMove only, dominated by reversible moves that keep the castling
+// rights (quiet moves of knights, bishops, queens, and of rooks / kings that hold no right), so that
+// the halfmove clock runs past 100, past 127 and wraps; two walks in three are purely reversible when
+// possible, the third mixes in random legal moves.  Every played move must be rule-book legal in the
+// driver's position (`speclegal`), the driver follows with `mkq` (the machinery suite c10 uses for
+// clocks past 100 / 128: legality does not depend on the clock, no `valid` is asked on the way).  At
+// checkpoints (plies 1 2 4 8 16 32 48 64 80 96, every 8th ply from 100, clock values around 100, 127
+// and the wrap, the last ply) the c01 comparison is made: generated lists and playable set vs model
+// vs Rules.legalMoves of the reached position - and a SECOND time after the first pass has made and
+// undone every generated move, so that state corrupted by an undo is seen by the next generation;
+// the rule-book view (placement, turn, rights, en-passant target) before and after that pass and in
+// the model must agree as well.
+func (e *env) c01LongPlay(walks int) {
+	rng := e.c.Rng
+	type checkpoint struct {
+		ply                        int
+		pos0, pos1                 string
+		gen1, legal1, gen2, legal2 string
+	}
+	view := func(b *board.Board) string { return strings.Join(strings.Fields(implutil.PosStr(b))[:4], " ") }
+	for w := 0; w < walks; w++ {
+		var fen string
+		var b *board.Board
+		for {
+			if rng.IntN(3) == 0 {
+				if cc, ok := posgen.CastlePath(rng); ok {
+					fen = cc.Pos.FEN()
+				} else {
+					continue
+				}
+			} else {
+				fen, _ = e.s.Next()
+			}
+			var valid bool
+			b, valid, _ = e.load("C01", fen)
+			// both sides need a man that can shuffle without touching the rights
+			minor := b != nil && (b.Pieces[Knight]|b.Pieces[Bishop]|b.Pieces[Queen])&b.Colors[White] != 0 &&
+				(b.Pieces[Knight]|b.Pieces[Bishop]|b.Pieces[Queen])&b.Colors[Black] != 0
+			if b != nil && valid && b.Castles != 0 && (minor || rng.IntN(8) == 0) && len(implutil.Legal(b)) > 0 {
+				break
+			}
+		}
+		mixed := w%3 == 2
+		target := 170 + rng.IntN(91)
+		if mixed {
+			target = 130 + rng.IntN(131)
+		}
+		var ms []move.Move
+		var cps []checkpoint
+		reqs := []string{"fen " + fen}
+		wrapped, irreversible := false, 0
+		for ply := 1; ply <= target; ply++ {
+			l := implutil.Legal(b)
+			if len(l) == 0 {
+				break
+			}
+			var keep []move.Move
+			for _, x := range l {
+				pc := b.SquaresToPiece[x.From()]
+				if b.SquaresToPiece[x.To()] != NoPiece || pc == Pawn {
+					continue
+				}
+				if pc == King || pc == Rook {
+					// would the move give up a right?
+					var lose Castles
+					switch x.From() {
+					case E1:
+						lose = ShortWhite | LongWhite
+					case H1:
+						lose = ShortWhite
+					case A1:
+						lose = LongWhite
+					case E8:
+						lose = ShortBlack | LongBlack
+					case H8:
+						lose = ShortBlack
+					case A8:
+						lose = LongBlack
+					}
+					if b.Castles&lose != 0 {
+						continue
+					}
+				}
+				keep = append(keep, x)
+			}
+			m := l[rng.IntN(len(l))]
+			if len(keep) > 0 && !(mixed && rng.IntN(25) == 0) {
+				// prefer a shuffle that does not give check (a check forces king moves, which cost rights)
+				for try := 0; try < 4; try++ {
+					m = keep[rng.IntN(len(keep))]
+					r := b.MakeMove(m)
+					chk := b.InCheck(b.STM)
+					b.UndoMove(m, r)
+					if !chk {
+						break
+					}
+				}
+			}
+			if b.SquaresToPiece[m.From()] == Pawn || b.SquaresToPiece[b.CaptureSq(m)] != NoPiece {
+				irreversible++
+			}
+			reqs = append(reqs, "speclegal "+strconv.Itoa(int(m)), "mkq "+strconv.Itoa(int(m)))
+			b.MakeMove(m)
+			ms = append(ms, m)
+			fc := int(b.FiftyCnt)
+			if fc < 0 {
+				wrapped = true
+			}
+			isCp := ply == target || (ply < 100 && (ply&(ply-1) == 0 || ply%16 == 0)) || (ply >= 100 && ply%8 == 0) ||
+				(fc >= 99 && fc <= 101) || fc >= 126 || (fc < 0 && fc <= -125)
+			if !isCp {
+				continue
+			}
+			var cp checkpoint
+			cp.ply = ply
+			cp.pos0 = view(b)
+			n1, q1 := implutil.Gen(b)
+			cp.gen1 = implutil.MovesStr(n1) + "|" + implutil.MovesStr(q1)
+			cp.legal1 = implutil.MovesStr(implutil.Legal(b)) // makes and undoes every generated move
+			cp.pos1 = view(b)
+			n2, q2 := implutil.Gen(b)
+			cp.gen2 = implutil.MovesStr(n2) + "|" + implutil.MovesStr(q2)
+			cp.legal2 = implutil.MovesStr(implutil.Legal(b))
+			cps = append(cps, cp)
+			reqs = append(reqs, "abs", "gen", "legal", "spec")
+			e.r.Count("longplay-checkpoints", 1)
+			switch {
+			case fc < 0:
+				e.r.Count("longplay-checkpoints-clock-wrapped", 1)
+			case fc > 100:
+				e.r.Count("longplay-checkpoints-clock-101..127", 1)
+			}
+			if b.Castles != 0 {
+				e.r.Count("longplay-checkpoints-with-castling-rights", 1)
+				if fc < 0 || fc > 100 {
+					e.r.Count("longplay-checkpoints-with-castling-rights-clock>100", 1)
+					e.r.Nontrivial(fmt.Sprintf("longplay %s %d %v", fen, ply, ms[max(0, len(ms)-6):]))
+				}
+			}
+			for _, x := range q2 {
+				if b.SquaresToPiece[x.From()] == King && Abs(int(x.From())-int(x.To())) == 2 {
+					e.r.Count("longplay-checkpoints-castling-move-generated", 1)
+					break
+				}
+			}
+		}
+		e.r.Count("longplay-walks", 1)
+		e.r.Count("longplay-plies", len(ms))
+		e.r.Count("longplay-irreversible-plies", irreversible)
+		if wrapped {
+			e.r.Count("longplay-walks-clock-wrapped", 1)
+		}
+		if b.Castles != 0 {
+			e.r.Count("longplay-walks-rights-kept-to-the-end", 1)
+		}
+		ans := e.m.Batch(reqs)[1:]
+		path := func(ply int, last string) []string {
+			p := []string{"fen " + fen}
+			for _, m := range ms[:ply] {
+				p = append(p, "mk "+strconv.Itoa(int(m)))
+			}
+			return append(p, last)
+		}
+		ai, ci := 0, 0
+		failed := false
+		for ply := 1; ply <= len(ms) && !failed; ply++ {
+			e.r.Evaluations++
+			if ans[ai] != "1" {
+				e.r.Fail(common.Mismatch{Property: "C01", Kind: "failing-input", Ops: path(ply-1, "speclegal "+strconv.Itoa(int(ms[ply-1]))),
+					Impl: "playable", Spec: ans[ai], Note: "a move of the implementation's playable set is not rule-book legal in the position reached by play"})
+				failed = true
+				break
+			}
+			ai += 2
+			if ci < len(cps) && cps[ci].ply == ply {
+				cp := cps[ci]
+				ci++
+				abs, gen, legal, spec := ans[ai], ans[ai+1], ans[ai+2], ans[ai+3]
+				ai += 4
+				e.r.Evaluations += 2
+				absView := strings.Join(strings.Fields(abs)[:4], " ")
+				switch {
+				case cp.legal1 != spec:
+					e.r.Fail(common.Mismatch{Property: "C01", Kind: "failing-input", Ops: path(ply, "legal"), Impl: cp.legal1, Model: legal, Spec: spec,
+						Note: "playable set of the position reached by long play differs from the FIDE-legal set; implementation's view: " + cp.pos0 + " rule-book view: " + absView})
+					failed = true
+				case cp.legal2 != spec:
+					e.r.Fail(common.Mismatch{Property: "C01", Kind: "failing-input", Ops: path(ply, "legal;legal"), Impl: cp.legal2, Model: legal, Spec: spec,
+						Note: "playable set generated a SECOND time (after make/undo of every generated move) differs from the FIDE-legal set; view before: " + cp.pos0 + " after: " + cp.pos1})
+					failed = true
+				case cp.pos1 != cp.pos0:
+					e.r.Fail(common.Mismatch{Property: "C01", Kind: "failing-input", Ops: path(ply, "legal"), Impl: cp.pos1, Spec: cp.pos0,
+						Note: "the legality filter (make/undo of every generated move) changed placement / turn / rights / en-passant target"})
+					failed = true
+				case cp.pos0 != absView:
+					e.r.Fail(common.Mismatch{Property: "C01", Kind: "broken-correspondence", Ops: path(ply, "abs"), Impl: cp.pos0, Model: absView})
+					failed = true
+				case cp.gen1 != gen || cp.gen2 != gen:
+					e.r.Fail(common.Mismatch{Property: "C01", Kind: "broken-correspondence", Ops: path(ply, "gen"), Impl: cp.gen1 + " / " + cp.gen2, Model: gen, Spec: spec})
+					failed = true
+				case cp.legal1 != legal:
+					e.r.Fail(common.Mismatch{Property: "C01", Kind: "broken-correspondence", Ops: path(ply, "legal"), Impl: cp.legal1, Model: legal, Spec: spec})
+					failed = true
+				}
+			}
+		}
+	}
+}
+
+func countList(s string) int {
+	if s == "" {
+		return 0
+	}
+	return strings.Count(s, ",") + 1
+}
+
+// c01Filters checks the other places where the engine applies the legality filter, on a position
+// whose playable set has just been compared: (i) debug.Perft(b, 1) against the number of rule-book
+// legal moves, and on a sample biased to roots in check / with pin candidates / with an en-passant
+// target debug.Perft(b, 2) against the sum of the rule-book legal-move counts of the rule-book
+// successors; (ii) the move the search returns when it is aborted before the first iteration has
+// delivered one (node limit 0, a tiny node limit, a stop channel that is already closed): 0 iff the
+// rule book has no legal move (0 is also accepted on a root that is drawn by the 50-move rule),
+// otherwise a rule-book legal move.  Counted: positions whose FIRST generated pseudo-legal move is
+// illegal, positions with any illegal pseudo-legal move.
+func (e *env) c01Filters(fen, src string, b *board.Board, st posgen.Stats, all []move.Move, spec string, probe *search.Search) {
+	rng := e.c.Rng
+	nLegal := countList(spec)
+	guard := func(what string, f func()) {
+		defer func() {
+			if r := recover(); r != nil {
+				e.r.Fail(common.Mismatch{Property: "C01", Kind: "failing-input", Ops: []string{"fen " + fen, what}, Impl: fmt.Sprint("panic: ", r)})
+			}
+		}()
+		f()
+	}
+	// classification of the root for the histogram
+	firstIllegal, anyIllegal := false, false
+	for k, m := range all {
+		r := b.MakeMove(m)
+		bad := b.InCheck(b.STM.Flip())
+		b.UndoMove(m, r)
+		if bad {
+			anyIllegal = true
+			if k == 0 {
+				firstIllegal = true
+			}
+		}
+	}
+	if anyIllegal {
+		e.r.Count("filter-root-with-illegal-pseudolegal-move", 1)
+	}
+	if firstIllegal {
+		e.r.Count("filter-root-first-generated-move-illegal", 1)
+	}
+	// (i) perft
+	guard("perft 1", func() {
+		e.r.Evaluations++
+		e.r.Count("perft1", 1)
+		if got := debug.Perft(b, 1, false); got != nLegal {
+			e.r.Fail(common.Mismatch{Property: "C01", Kind: "failing-input", Ops: []string{"fen " + fen, "perft 1"},
+				Impl: strconv.Itoa(got), Spec: strconv.Itoa(nLegal), Note: "debug.Perft(1) differs from the number of rule-book legal moves"})
+		}
+	})
+	interesting := st.InCheck || st.AlignedMen > 0 || st.HasEP
+	if nLegal > 0 && ((interesting && rng.IntN(5) == 0) || rng.IntN(40) == 0) {
+		var reqs []string
+		for _, m := range strings.Split(spec, ",") {
+			reqs = append(reqs, "specafter "+m)
+		}
+		want := 0
+		for _, a := range e.m.Batch(reqs) {
+			want += countList(a)
+		}
+		guard("perft 2", func() {
+			e.r.Evaluations++
+			e.r.Count("perft2", 1)
+			if interesting {
+				e.r.Count("perft2-root-in-check-or-pin-or-ep", 1)
+			}
+			if got := debug.Perft(b, 2, false); got != want {
+				e.r.Fail(common.Mismatch{Property: "C01", Kind: "failing-input", Ops: []string{"fen " + fen, "perft 2"},
+					Impl: strconv.Itoa(got), Spec: strconv.Itoa(want), Note: "debug.Perft(2) differs from the rule-book count (sum of the legal-move counts of the rule-book successors)"})
+			}
+		})
+	}
+	// (ii) abort fallback of the search
+	if b.InvalidPieceCount() {
+		return // the engine refuses to search such positions (uci position command)
+	}
+	legalSet := map[string]bool{}
+	if spec != "" {
+		for _, m := range strings.Split(spec, ",") {
+			legalSet[m] = true
+		}
+	}
+	closed := make(chan struct{})
+	close(closed)
+	k := 1 + rng.IntN(3)
+	variants := []struct {
+		name string
+		opts []search.Option
+	}{
+		{"go nodes 0", []search.Option{search.WithNodes(0)}},
+		{fmt.Sprintf("go nodes %d", k), []search.Option{search.WithNodes(k)}},
+		{"go with pending stop", []search.Option{search.WithStop(closed)}},
+	}
+	for _, v := range variants {
+		guard(v.name, func() {
+			sb, err := board.FromFEN(fen)
+			if err != nil {
+				return
+			}
+			_, mv, _ := probe.Go(sb, append([]search.Option{search.WithOutput(nil)}, v.opts...)...)
+			e.r.Evaluations++
+			e.r.Count("abort-fallback", 1)
+			if firstIllegal {
+				e.r.Count("abort-fallback-root-first-generated-move-illegal", 1)
+			}
+			ok := false
+			switch {
+			case nLegal == 0:
+				ok = mv == 0
+			case mv == 0:
+				ok = sb.FiftyCnt >= 100
+			default:
+				ok = legalSet[strconv.Itoa(int(mv))]
+			}
+			if !ok {
+				e.r.Fail(common.Mismatch{Property: "C01", Kind: "failing-input", Ops: []string{"fen " + fen, v.name},
+					Impl: fmt.Sprintf("%d (%s)", mv, mv), Spec: spec, Note: "the move returned by the aborted search is not a rule-book legal move (or 0 although a legal move exists / a move although none exists)"})
+			}
+		})
 	}
 }
 
@@ -278,7 +681,7 @@ func (e *env) c02() {
 		e.r.Count(src, 1)
 	}
 	for i := 0; i < n; i++ {
-		fen, src := e.s.Next()
+		fen, src := e.next()
 		b, valid, _ := e.load("C02", fen)
 		if b == nil || !valid {
 			continue
@@ -381,7 +784,7 @@ func (e *env) c02() {
 
 func (e *env) walks(prop string) {
 	roots := e.c.Pick(700, 12000)
-	e.r.Rule = "per valid root: exhaustive depth-2 tree of pseudo-legal makes (incl. moves that leave the king in check, undone at once) and a random walk of <=60 nested makes with null moves interleaved when not in check, then full unwinding; after every op the deep snapshot (placements, rights, ep, counters, whole hash history, token fields) is compared with the model; Go asserts undo==snapshot-before (C03) and Hash()==recomputed hash + three placements agree (C04); non-trivial = make of a capture/castling/promotion/en-passant/double-push/rights-changing move or null move with ep; distinct by (FEN, op path)"
+	e.r.Rule = "per valid root: exhaustive depth-2 tree of pseudo-legal makes (incl. moves that leave the king in check, undone at once) and a random walk of <=60 nested makes with null moves interleaved when not in check, then full unwinding; after every op the deep snapshot (placements, rights, ep, counters, whole hash history, token fields) is compared with the model; Go asserts undo==snapshot-before (C03) and Hash()==recomputed hash + three placements agree (C04); non-trivial = make of a capture/castling/promotion/en-passant/double-push/rights-changing move or null move with ep; distinct by (FEN, op path). C03 only: deep walks (nesting depth up to 330, crossing 128 and 256 history entries, null moves interleaved, full unwinding, every op under recover; histogram deepwalk-*; non-trivial = walk of depth >= 127)"
 	for i := 0; i < roots; i++ {
 		fen, src := e.s.Next()
 		b, valid, _ := e.load(prop, fen)
@@ -397,6 +800,172 @@ func (e *env) walks(prop string) {
 	}
 	if prop == "C04" {
 		e.transpositions()
+	}
+	if prop == "C03" {
+		e.deepWalks(prop, e.c.Pick(40, 1200))
+	}
+}
+
+// deepWalks: make/undo walks whose nesting depth crosses the capacities a growing history buffer can
+// have (around and beyond 128 and 256 entries): random legal play (captures and pawn moves keep the
+// halfmove clock inside the valid range; the walk stops at a clock of 100) with null moves
+// interleaved, from fresh FEN loads; the first part of the walk doubles as "history already present
+// through earlier made moves" for the rest.  Then FULL unwinding to the root.  After EVERY op the deep
+// snapshot (incl. the whole hash history) is compared with the model, every undo is compared with the
+// snapshot taken before its make, and Hash() is read; every op runs under recover() so that a panic
+// is reported as a failing input with its op path.
+func (e *env) deepWalks(prop string, n int) {
+	rng := e.c.Rng
+	for w := 0; w < n; w++ {
+		target := []int{120 + rng.IntN(20), 248 + rng.IntN(20), 100 + rng.IntN(230), 126 + rng.IntN(6), 254 + rng.IntN(6)}[w%5]
+		var fen string
+		var b *board.Board
+		for {
+			fen = StartPosFEN
+			if rng.IntN(4) != 0 {
+				fen, _ = e.s.Next()
+			}
+			var valid bool
+			b, valid, _ = e.load(prop, fen)
+			if b != nil && valid && (b.Pieces[Pawn].Count() >= 6 || rng.IntN(4) == 0) {
+				break
+			}
+		}
+		// choose the walk on a scratch board that is never unwound
+		var ops []op
+		nulls := 0
+		genPanic := func() (msg string) {
+			defer func() {
+				if r := recover(); r != nil {
+					msg = fmt.Sprint(r)
+				}
+			}()
+			g, _ := board.FromFEN(fen)
+			for len(ops) < target {
+				if !g.InCheck(g.STM) && rng.IntN(8) == 0 {
+					g.MakeNullMove()
+					ops = append(ops, op{req: "nm", kind: 'n'})
+					nulls++
+					continue
+				}
+				l := implutil.Legal(g)
+				if len(l) == 0 || g.FiftyCnt >= 100 {
+					break
+				}
+				var pref []move.Move
+				for _, x := range l {
+					irreversible := g.SquaresToPiece[x.From()] == Pawn || g.SquaresToPiece[g.CaptureSq(x)] != NoPiece
+					if (g.FiftyCnt >= 70) == irreversible && (irreversible || rng.IntN(4) != 0) {
+						pref = append(pref, x)
+					}
+				}
+				m := l[rng.IntN(len(l))]
+				if len(pref) > 0 && rng.IntN(5) != 0 {
+					m = pref[rng.IntN(len(pref))]
+				}
+				g.MakeMove(m)
+				ops = append(ops, mkOp(m))
+			}
+			return ""
+		}()
+		depth := len(ops)
+		if genPanic != "" {
+			path := []string{"fen " + fen}
+			for _, o := range ops {
+				path = append(path, o.req)
+			}
+			e.r.Fail(common.Mismatch{Property: prop, Kind: "failing-input", Ops: path, Impl: "panic: " + genPanic, Note: "panic while playing the walk forward"})
+			continue
+		}
+		for i := depth - 1; i >= 0; i-- {
+			if ops[i].kind == 'n' {
+				ops = append(ops, op{req: "unm", kind: 'v'})
+			} else {
+				ops = append(ops, umOp(ops[i].m))
+			}
+		}
+		e.r.Count("deepwalk", 1)
+		e.r.Count("deepwalk-ops", len(ops))
+		e.r.Count("deepwalk-nullmoves", nulls)
+		for _, lim := range []int{64, 127, 128, 255, 256} {
+			if depth > lim {
+				e.r.Count(fmt.Sprintf("deepwalk-depth>%d", lim), 1)
+			}
+		}
+		if depth >= 127 {
+			e.r.Nontrivial(fmt.Sprintf("deep %s %d %v", fen, depth, ops[:8]))
+		}
+		e.runDeep(prop, fen, b, ops)
+	}
+}
+
+// runDeep is run with recover() around every op, Hash() read after every op, and at most one
+// report per kind and walk.
+func (e *env) runDeep(prop, fen string, b *board.Board, ops []op) {
+	reqs := make([]string, len(ops))
+	for i, o := range ops {
+		reqs[i] = o.req
+	}
+	ans := e.m.Batch(append([]string{"fen " + fen}, reqs...))[1:]
+	type saved struct {
+		snap string
+		r    board.Reverse
+	}
+	var stack []saved
+	desync, undoReported := false, false
+	path := []string{"fen " + fen}
+	for i, o := range ops {
+		path = append(path, o.req)
+		var impl string
+		restored := true
+		perr := func() (msg string) {
+			defer func() {
+				if r := recover(); r != nil {
+					msg = fmt.Sprint(r)
+				}
+			}()
+			switch o.kind {
+			case 'm':
+				before := implutil.Dump(b)
+				r := b.MakeMove(o.m)
+				stack = append(stack, saved{before, r})
+				impl = implutil.Dump(b) + " | " + implutil.Token(r)
+			case 'n':
+				before := implutil.Dump(b)
+				r := b.MakeNullMove()
+				stack = append(stack, saved{before, r})
+				impl = implutil.Dump(b) + " | " + implutil.Token(r)
+			case 'u', 'v':
+				sv := stack[len(stack)-1]
+				stack = stack[:len(stack)-1]
+				if o.kind == 'u' {
+					b.UndoMove(o.m, sv.r)
+				} else {
+					b.UndoNullMove(sv.r)
+				}
+				impl = implutil.Dump(b)
+				restored = impl == sv.snap
+				if !restored && !undoReported {
+					undoReported = true
+					e.r.Fail(common.Mismatch{Property: prop, Kind: "failing-input", Ops: append([]string{}, path...),
+						Impl: impl, Spec: sv.snap, Model: ans[i], Note: fmt.Sprintf("undo at nesting depth %d did not restore the snapshot taken before the make (whole hash history compared)", len(stack)+1)})
+				}
+			}
+			if b.Hash() != b.VerifCalculateHash() && prop == "C04" {
+				e.r.Fail(common.Mismatch{Property: "C04", Kind: "failing-input", Ops: append([]string{}, path...), Impl: impl, Note: "Hash() differs from the recomputed hash"})
+			}
+			return ""
+		}()
+		e.r.Evaluations++
+		if perr != "" {
+			e.r.Fail(common.Mismatch{Property: prop, Kind: "failing-input", Ops: append([]string{}, path...), Impl: "panic: " + perr, Model: ans[i],
+				Note: fmt.Sprintf("panic at nesting depth %d while the walk was made / taken back", len(stack))})
+			return
+		}
+		if !desync && impl != ans[i] {
+			e.r.Fail(common.Mismatch{Property: prop, Kind: "broken-correspondence", Ops: append([]string{}, path...), Impl: impl, Model: ans[i]})
+			desync = true
+		}
 	}
 }
 
@@ -640,11 +1209,12 @@ func (e *env) transpositions() {
 
 func (e *env) c05() {
 	n := e.c.Pick(1500, 40000)
-	e.r.Rule = "valid positions x ALL 32768 move encodings: acceptance bitmap of IsPseudoLegal vs membership in GenNoisy+GenNotNoisy output (property, checked in Go) vs bitmap of the Lean isPseudoLegal model; evaluations counts encodings; non-trivial = accepted encoding (a genuine move), distinct by (FEN, encoding) — plus positions counted in the histogram"
+	e.r.Rule = "valid positions x ALL 32768 move encodings: acceptance bitmap of IsPseudoLegal vs membership in GenNoisy+GenNotNoisy output (property, checked in Go) vs bitmap of the Lean isPseudoLegal model; evaluations counts encodings; non-trivial = accepted encoding (a genuine move), distinct by (FEN, encoding) — plus positions counted in the histogram (castlepath-pattern <right>:<one char per path square: . vacant, o own, x enemy man not attacking the king's squares, X enemy man attacking them>)"
 	for i := 0; i < n; i++ {
-		fen, src := e.s.Next()
+		fen, src := e.next()
 		b, valid, _ := e.load("C05", fen)
 		if b == nil || !valid {
+			e.r.Count("skipped-invalid:"+src, 1)
 			continue
 		}
 		e.r.Count(src, 1)
@@ -653,6 +1223,9 @@ func (e *env) c05() {
 		gen := map[move.Move]bool{}
 		for _, m := range append(noisy, quiet...) {
 			gen[m] = true
+			if d := int(m.From()) - int(m.To()); strings.HasPrefix(src, "castlepath") && b.SquaresToPiece[m.From()] == King && (d == 2 || d == -2) {
+				e.r.Count("castlepath-castling-move-generated", 1)
+			}
 		}
 		var sb strings.Builder
 		for k := 0; k < 8192; k++ {
@@ -1083,7 +1656,7 @@ func (e *env) exhaustive(extra []int8) {
 
 func (e *env) c10() {
 	games := e.c.Pick(150, 6000)
-	e.r.Rule = "game histories from valid starts (random play with a shuffling bias towards reversible moves, so positions recur, castling rights get lost and en-passant rights are transient), via MakeMove and via the UCI position command; after every ply Threefold() vs the Lean model vs the art. 9.2.2 count of the rule-book spec over the whole history (capped at 3); non-trivial = ply whose count is >= 2; distinct by (start FEN, move prefix)"
+	e.r.Rule = "game histories from valid starts (random play with a shuffling bias towards reversible moves, so positions recur, castling rights get lost and en-passant rights are transient), via MakeMove and via the UCI position command; after every ply Threefold() vs the Lean model vs the art. 9.2.2 count of the rule-book spec over the whole history (capped at 3); non-trivial = ply whose count is >= 2; distinct by (start FEN, move prefix). Added: directed en-passant situations (EPDirected / EPGeometry: discovered check through the origin square, capturer pinned on diagonal / file / rank, two capturers, checking pusher; both colours) followed by reversible round trips of 4 / 6 / 8 plies (ephist-*), and 2-3 boards from StartPos() / FromFEN(same FEN) alive at once and advanced alternately, each compared with its own history (alias-*)"
 	rng := e.c.Rng
 	// regression corpus: histories that failed before (run first, every time)
 	corpus := []struct {
@@ -1191,7 +1764,15 @@ func (e *env) c10() {
 				m = fixed[i]
 			}
 			last[i%2] = m
+			beside := pushNextToEnemyPawn(b, m)
 			b.MakeMove(m)
+			if beside {
+				if b.EnPassant != 0 {
+					e.r.Count("double-push-beside-enemy-pawn:target-recorded", 1)
+				} else {
+					e.r.Count("double-push-beside-enemy-pawn:target-not-recorded", 1)
+				}
+			}
 			ms = append(ms, m)
 			impl = append(impl, int(b.Threefold()))
 			reqs = append(reqs, "mk "+strconv.Itoa(int(m)), "three", "rep")
@@ -1234,6 +1815,403 @@ func (e *env) c10() {
 		e.r.Count(fmt.Sprintf("mode%d-games", mode), 1)
 		if b.FiftyCnt < 0 || len(ms) > 128 {
 			e.r.Count("games-past-128-plies-or-clock-wrap", 1)
+		}
+	}
+	// directed en-passant situations followed by reversible round trips (both colours)
+	e.c10EPHistories(e.c.Pick(350, 12000))
+	// several boards alive at once, advanced alternately (aliasing between board values)
+	e.c10Aliasing(e.c.Pick(45, 1500))
+}
+
+// c10obs is one observation of Threefold() on a board whose history is the first k moves of its game.
+type c10obs struct{ k, v int }
+
+// c10Check replays one single-board history (start FEN + moves) in the Lean model and the rule-book
+// spec and compares every recorded observation of the implementation's Threefold() with the model's
+// threefold and with the art. 9.2.2 count of the spec for the same history prefix - the comparison of
+// the main c10 loop, for boards that were advanced outside that loop.  obs must be sorted by k.
+func (e *env) c10Check(fen string, ms []move.Move, obs []c10obs, startEPNormal bool, label string) bool {
+	reqs := []string{"fen " + fen, "three", "rep"}
+	for _, m := range ms {
+		reqs = append(reqs, "mk "+strconv.Itoa(int(m)), "three", "rep")
+	}
+	ans := e.m.Batch(reqs)
+	for _, o := range obs {
+		e.r.Evaluations++
+		model, spec := ans[3*o.k+1], ans[3*o.k+2]
+		is := strconv.Itoa(o.v)
+		path := func() []string {
+			p := []string{"fen " + fen}
+			for _, m := range ms[:o.k] {
+				p = append(p, "mk "+strconv.Itoa(int(m)))
+			}
+			return p
+		}
+		if o.v >= 2 {
+			e.r.Nontrivial(label + ";" + strings.Join(path(), ";"))
+			e.r.Count(fmt.Sprintf("count=%d", min(o.v, 3)), 1)
+		}
+		if is != spec {
+			note := "Threefold() differs from the number of occurrences of the position in the history"
+			if !startEPNormal {
+				note += " [start-ep-not-capturable]"
+			}
+			e.r.Fail(common.Mismatch{Property: "C10", Kind: "failing-input", Ops: append(path(), "three"),
+				Impl: is, Model: model, Spec: spec, Note: note + " (" + label + ")"})
+			return false
+		} else if is != model {
+			e.r.Fail(common.Mismatch{Property: "C10", Kind: "broken-correspondence", Ops: append(path(), "three"),
+				Impl: is, Model: model, Spec: spec, Note: label})
+			return false
+		}
+	}
+	return true
+}
+
+// c10Key is the part of the rule-book view that must be equal for two positions to be "the same"
+// apart from the en-passant capturability: placement, side to move, castling rights.
+func c10Key(b *board.Board) string {
+	f := strings.Fields(implutil.PosStr(b))
+	return f[0] + " " + f[1] + " " + f[2]
+}
+
+func hasMove(l []move.Move, m move.Move) bool {
+	for _, x := range l {
+		if x == m {
+			return true
+		}
+	}
+	return false
+}
+
+// pushNextToEnemyPawn reports whether m is a double pawn push landing beside an enemy pawn (the only
+// situation in which an en-passant target can be recorded); call BEFORE making m.
+func pushNextToEnemyPawn(b *board.Board, m move.Move) bool {
+	d := int(m.From()) - int(m.To())
+	if b.SquaresToPiece[m.From()] != Pawn || (d != 16 && d != -16) {
+		return false
+	}
+	them := b.Colors[b.STM.Flip()] & b.Pieces[Pawn]
+	to := int(m.To())
+	return (to%8 > 0 && them&(1<<(to-1)) != 0) || (to%8 < 7 && them&(1<<(to+1)) != 0)
+}
+
+// c10Trip plays a reversible round trip of L plies (L = 4, 6 or 8) from the current position: each side
+// makes a closed walk of L/2 quiet non-pawn moves (out-and-back; a triangle of a king / queen / rook /
+// bishop; two out-and-backs nested or one after the other).  A move that starts a walk is chosen with
+// a one-ply look-ahead so that the opponent's next planned return move stays legal (needed when the
+// position to return to is a check: the checker has to step off the line or be blocked before the
+// king can step back).  Reports whether the start position (placement, turn, rights) was reached.
+func (e *env) c10Trip(b *board.Board, L int, play func(move.Move)) bool {
+	rng := e.c.Rng
+	key0 := c10Key(b)
+	type walker struct {
+		plan  string // 'o' start a walk, 'b' take the newest open move back, 't' second leg of a triangle, 'c' close the triangle
+		stack []move.Move
+		tri   [3]Square // triangle: origin, first stop, second stop
+	}
+	var w [2]*walker
+	for i := range w {
+		switch L / 2 {
+		case 2:
+			w[i] = &walker{plan: "ob"}
+		case 3:
+			w[i] = &walker{plan: "otc"}
+		default:
+			w[i] = &walker{plan: []string{"oobb", "obob"}[rng.IntN(2)]}
+		}
+	}
+	inv := func(m move.Move) move.Move { return move.From(m.To()) | move.To(m.From()) }
+	// the move a walker is bound to play at its step, 0 when it is free to choose
+	planned := func(x *walker, step int) move.Move {
+		if step >= len(x.plan) {
+			return 0
+		}
+		switch x.plan[step] {
+		case 'b':
+			if len(x.stack) > 0 {
+				return inv(x.stack[len(x.stack)-1])
+			}
+		case 'c':
+			return move.From(x.tri[2]) | move.To(x.tri[0])
+		}
+		return 0
+	}
+	geom := func(pc Piece, a, c Square) bool { // could pc go from a to c on an empty board
+		df, dr := Abs(int(a)%8-int(c)%8), Abs(int(a)/8-int(c)/8)
+		if a == c {
+			return false
+		}
+		switch pc {
+		case King:
+			return df <= 1 && dr <= 1
+		case Rook:
+			return df == 0 || dr == 0
+		case Bishop:
+			return df == dr
+		case Queen:
+			return df == 0 || dr == 0 || df == dr
+		}
+		return false
+	}
+	for ply := 0; ply < L; ply++ {
+		me, opp := w[ply%2], w[(ply+1)%2]
+		step := ply / 2
+		l := implutil.Legal(b)
+		if len(l) == 0 {
+			return false
+		}
+		var m move.Move
+		if pm := planned(me, step); pm != 0 {
+			if !hasMove(l, pm) || b.SquaresToPiece[pm.To()] != NoPiece {
+				return false
+			}
+			m = pm
+		} else {
+			// candidates: quiet, non-pawn, no castling, normally not changing the castling rights
+			keepRights := rng.IntN(8) != 0
+			var cand []move.Move
+			for _, x := range l {
+				pc := b.SquaresToPiece[x.From()]
+				if b.SquaresToPiece[x.To()] != NoPiece || pc == Pawn || (pc == King && Abs(int(x.From())-int(x.To())) == 2) {
+					continue
+				}
+				if me.plan[step] == 'o' && me.plan == "otc" && pc == Knight {
+					continue
+				}
+				if me.plan[step] == 't' && (x.From() != me.tri[1] || x.To() == me.tri[0] || !geom(pc, x.To(), me.tri[0])) {
+					continue
+				}
+				cand = append(cand, x)
+			}
+			rng.Shuffle(len(cand), func(i, j int) { cand[i], cand[j] = cand[j], cand[i] })
+			if len(cand) > 16 {
+				cand = cand[:16]
+			}
+			oppNext := planned(opp, (ply+1)/2)
+			for _, x := range cand {
+				c0 := b.Castles
+				r := b.MakeMove(x)
+				ok := (!keepRights || b.Castles == c0) && (oppNext == 0 || hasMove(implutil.Legal(b), oppNext))
+				b.UndoMove(x, r)
+				if ok {
+					m = x
+					break
+				}
+			}
+			if m == 0 {
+				if len(cand) == 0 {
+					return false
+				}
+				m = cand[0]
+			}
+			switch me.plan[step] {
+			case 'o':
+				me.stack = append(me.stack, m)
+				me.tri[0], me.tri[1] = m.From(), m.To()
+			case 't':
+				me.tri[2] = m.To()
+			}
+		}
+		if pm := planned(me, step); pm != 0 && me.plan[step] == 'b' {
+			me.stack = me.stack[:len(me.stack)-1]
+		}
+		play(m)
+	}
+	return c10Key(b) == key0
+}
+
+// c10EPHistories: histories that start with or contain a directed en-passant situation
+// (posgen.EPDirected: the capturer pinned on file / rank / diagonal, the discovered check through the
+// pusher's origin square, two capturers, a checking pusher; both colours): optionally a round trip in
+// the position before the double push, the double push, then up to three reversible round trips of 4,
+// 6 or 8 plies that return to the exact placement after the push.  Threefold() is compared after
+// every ply as in the main loop.  Counted: histories whose push lands beside an enemy pawn with the
+// target recorded / not recorded, pushes that leave the opponent in check, and how many of those
+// post-push positions recur.
+func (e *env) c10EPHistories(games int) {
+	rng := e.c.Rng
+	for g := 0; g < games; g++ {
+		var ec posgen.EPCase
+		ok, kind := false, "epdirected"
+		if g%3 == 0 {
+			ec, ok = posgen.EPDirected(rng)
+		} else {
+			ec, kind, ok = posgen.EPGeometry(rng)
+		}
+		if !ok {
+			continue
+		}
+		fen := ec.Pos.FEN()
+		b, valid, epn := e.load("C10", fen)
+		if b == nil || !valid {
+			e.r.Count("ephist-start-invalid", 1)
+			continue
+		}
+		push := move.From(Square(ec.From)) | move.To(Square(ec.To))
+		if !hasMove(implutil.Legal(b), push) {
+			e.r.Count("ephist-push-illegal", 1)
+			continue
+		}
+		e.r.Count("ephist-kind:"+kind, 1)
+		var ms []move.Move
+		var obs []c10obs
+		play := func(m move.Move) {
+			b.MakeMove(m)
+			ms = append(ms, m)
+			obs = append(obs, c10obs{len(ms), int(b.Threefold())})
+		}
+		e.r.Count("ephist-games", 1)
+		if ec.Pos.Black {
+			e.r.Count("ephist-black-pushes", 1)
+		}
+		pre := false
+		if rng.IntN(3) == 0 {
+			pre = e.c10Trip(b, []int{4, 6, 8}[rng.IntN(3)], play)
+			if pre {
+				e.r.Count("ephist-roundtrip-before-push-returned", 1)
+			}
+		}
+		if len(ms) == 0 || pre {
+			beside := pushNextToEnemyPawn(b, push)
+			play(push)
+			rec := "target-not-recorded"
+			if b.EnPassant != 0 {
+				rec = "target-recorded"
+			}
+			if beside {
+				e.r.Count("ephist-push-beside-enemy-pawn:"+rec, 1)
+			}
+			check := b.InCheck(b.STM)
+			if check {
+				e.r.Count("ephist-push-gives-check:"+rec, 1)
+			}
+			recurs := 0
+			for t, trips := 0, 1+rng.IntN(3); t < trips; t++ {
+				L := []int{4, 6, 8}[rng.IntN(3)]
+				if !e.c10Trip(b, L, play) {
+					break
+				}
+				recurs++
+				e.r.Count(fmt.Sprintf("ephist-roundtrip-%d-plies-returned", L), 1)
+			}
+			if recurs > 0 {
+				e.r.Count("ephist-postpush-position-recurs:"+rec, 1)
+				if check {
+					e.r.Count("ephist-postpush-check-position-recurs:"+rec, 1)
+				}
+			}
+			if recurs > 1 {
+				e.r.Count("ephist-postpush-position-recurs-twice:"+rec, 1)
+			}
+		}
+		e.r.Count("plies", len(ms))
+		e.c10Check(fen, ms, obs, epn, "ephist")
+	}
+}
+
+// c10Aliasing: two or three boards obtained in each of the ways the repository itself obtains boards
+// (board.StartPos() as uci.NewDriver / ucinewgame / `position startpos` / the datagen server do;
+// board.FromFEN(fen) called several times with the same FEN as `position fen`, main.go bench, debug/epd
+// and the datagen client do; one of each) are alive at once and advanced ALTERNATELY with different
+// shuffling move sequences.  After every ply on any board the Threefold() of EVERY board is observed
+// and later compared with that board's own history replayed alone in the model and the spec: a board
+// value must not see (or lose) history through another board value.
+func (e *env) c10Aliasing(sessions int) {
+	rng := e.c.Rng
+	startDump := ""
+	if b, _, _ := e.load("C10", StartPosFEN); b != nil {
+		startDump = implutil.Dump(b)
+	}
+	for s := 0; s < sessions; s++ {
+		way := []string{"startpos", "fromfen-same-fen", "startpos+fromfen"}[s%3]
+		nb := 2 + rng.IntN(2)
+		fen := StartPosFEN
+		epn := true
+		if way == "fromfen-same-fen" && rng.IntN(3) != 0 {
+			for {
+				f, _ := e.s.Next()
+				if b, valid, n := e.load("C10", f); b != nil && valid && len(implutil.Legal(b)) > 0 {
+					fen, epn = f, n
+					break
+				}
+			}
+		}
+		boards := make([]*board.Board, nb)
+		for i := range boards {
+			switch {
+			case way == "startpos" || (way == "startpos+fromfen" && i%2 == 0):
+				boards[i] = board.StartPos()
+				if d := implutil.Dump(boards[i]); d != startDump {
+					e.r.Fail(common.Mismatch{Property: "C10", Kind: "broken-correspondence", Ops: []string{"startpos"}, Impl: d, Model: startDump,
+						Note: "board.StartPos() differs from FromFEN(StartPosFEN)"})
+				}
+			default:
+				boards[i], _ = board.FromFEN(fen)
+			}
+		}
+		ms := make([][]move.Move, nb)
+		obs := make([][]c10obs, nb)
+		last := make([][2]move.Move, nb)
+		observe := func() {
+			for j, x := range boards {
+				obs[j] = append(obs[j], c10obs{len(ms[j]), int(x.Threefold())})
+			}
+		}
+		observe()
+		total := 30 + rng.IntN(e.c.Pick(150, 330))
+		cur := 0
+		for ply := 0; ply < total; ply++ {
+			if rng.IntN(3) == 0 {
+				cur = rng.IntN(nb)
+			}
+			b := boards[cur]
+			l := implutil.Legal(b)
+			if len(l) == 0 || b.FiftyCnt >= 100 {
+				cur = (cur + 1) % nb
+				continue
+			}
+			i := len(ms[cur])
+			var m move.Move
+			back := move.From(last[cur][i%2].To()) | move.To(last[cur][i%2].From())
+			pick := rng.IntN(10)
+			if pick < 6 && last[cur][i%2] != 0 && hasMove(l, back) && b.SquaresToPiece[back.To()] == NoPiece {
+				m = back
+			}
+			if m == 0 && pick < 9 {
+				var quiet []move.Move
+				for _, x := range l {
+					if b.SquaresToPiece[x.To()] == NoPiece && b.SquaresToPiece[x.From()] != Pawn {
+						quiet = append(quiet, x)
+					}
+				}
+				if len(quiet) > 0 {
+					m = quiet[rng.IntN(len(quiet))]
+				}
+			}
+			if m == 0 {
+				m = l[rng.IntN(len(l))]
+			}
+			last[cur][i%2] = m
+			b.MakeMove(m)
+			ms[cur] = append(ms[cur], m)
+			observe()
+		}
+		e.r.Count("alias-sessions:"+way, 1)
+		e.r.Count(fmt.Sprintf("alias-boards-alive=%d", nb), 1)
+		for j := range boards {
+			e.r.Count("alias-board-plies", len(ms[j]))
+			e.r.Count("plies", len(ms[j]))
+			rep := false
+			for _, o := range obs[j] {
+				if o.v >= 2 {
+					rep = true
+				}
+			}
+			if rep {
+				e.r.Count("alias-boards-with-a-repetition", 1)
+			}
+			e.c10Check(fen, ms[j], obs[j], epn, fmt.Sprintf("alias %s board %d of %d", way, j+1, nb))
 		}
 	}
 }
